@@ -409,6 +409,111 @@ def base_case_run(carve):
     return _enum_outcome("a source table (PolarsImpl) establishes M1, J and P", n, bad)
 
 
+def m11_run(carve):
+    """column names are arbitrary strings: spaces, quotes, SQL keywords, LIKE / regex metacharacters, names that look like
+    expressions - the exported frame has exactly the columns columns() reports, through mutate / rename / select as well"""
+    import warnings
+
+    import polars as pl
+    import sqlalchemy as sqa
+
+    from .c13 import _enum_outcome
+
+    pdt = H.pdt
+    names = ["a b", "select", "a.b", "a%", "x_y", "é", "1", "a'b", 'a"b', "a;--", "*", "a*", "[a]", "(a)", "$a", "a+1", "^a.*$", "^k$", "a|k", "\\d", "A", " lead", "col(k)"]
+    n, bad = 0, []
+    with warnings.catch_warnings():
+        warnings.simplefilter("ignore")
+        for nm in names:
+            if "regex_names" in carve and (nm == "*" or (nm.startswith("^") and nm.endswith("$"))):
+                continue
+            df = pl.DataFrame({"k": [1, 2], nm: [10.5, 20.5], "ka": [3, 4]})
+            for be in ("polars", "sqlite"):
+                n += 1
+                try:
+                    if be == "polars":
+                        t = pdt.Table(df, name="t")
+                    else:
+                        eng = sqa.create_engine("sqlite://")
+                        df.write_database("t", eng)
+                        t = pdt.Table("t", pdt.SqlAlchemy(eng))
+                    for label, x in (("source", t), ("mutate(z=col + k)", t >> pdt.mutate(z=t[nm] + t.k)), ("select(col, k)", t >> pdt.select(t[nm], t.k)), ("rename(k -> col2)", t >> pdt.rename({"k": nm + "2"})),
+                                     ("filter(col > 15) >> arrange(col)", t >> pdt.filter(t[nm] > 15) >> pdt.arrange(t[nm])), ("group_by(col) >> summarize", t >> pdt.group_by(t[nm]) >> pdt.summarize(s=t.k.sum()))):
+                        out = x >> pdt.export(pdt.Polars())
+                        if out.columns != (x >> pdt.columns()):
+                            bad.append(f"[{be}] column named {nm!r}, {label}: frame columns {out.columns}, columns() = {x >> pdt.columns()}")
+                            break
+                        if label.startswith("mutate") and out["z"].to_list() != [11.5, 22.5]:
+                            bad.append(f"[{be}] column named {nm!r}: col + k = {out['z'].to_list()}")
+                            break
+                except Exception as e:  # noqa: BLE001
+                    bad.append(f"[{be}] column named {nm!r}: {type(e).__name__}: {str(e)[:100]}")
+    return _enum_outcome("tables whose column names are special strings export with exactly the reported columns", n, bad)
+
+
+def m10_run(carve):
+    """printing (str / repr of a table) shows the columns that columns() reports - names, order and count - for results with
+    no, one and several rows, after renames, suffixing joins, reordering selects and summarize, on Polars and SQLite"""
+    import re
+    import warnings
+
+    import polars as pl
+    import sqlalchemy as sqa
+
+    from .c13 import _enum_outcome
+
+    pdt = H.pdt
+    C = pdt.C
+    df = pl.DataFrame({"a": [1, 2, 3], "b": ["x", "y", "z"], "c": [1.5, None, 2.5]})
+    uf = pl.DataFrame({"a": [2, 3, 9], "b": ["p", "q", "r"], "w": [10, 20, 30]})
+    eng = sqa.create_engine("sqlite://")
+    df.write_database("t", eng)
+    uf.write_database("u", eng)
+    n, bad = 0, []
+    pipes = {
+        "source": lambda t, u: t, "rename": lambda t, u: t >> pdt.rename({"a": "z"}), "rename_swap": lambda t, u: t >> pdt.rename({"a": "b", "b": "a"}), "select_reorder": lambda t, u: t >> pdt.select(t.c, t.a),
+        "mutate_overwrite": lambda t, u: t >> pdt.mutate(a=t.a * 2, d=t.a), "join_suffix": lambda t, u: t >> pdt.left_join(u, t.a == u.a), "join_user_suffix": lambda t, u: t >> pdt.inner_join(u, t.a == u.a, suffix="_r"),
+        "summarize": lambda t, u: t >> pdt.group_by(t.b) >> pdt.summarize(n=pdt.count()), "grouped": lambda t, u: t >> pdt.group_by(t.b, t.a), "rename_after_join": lambda t, u: t >> pdt.left_join(u, t.a == u.a) >> pdt.rename({"w_u": "ww"}) >> pdt.select(C.ww, t.a),
+    }
+    rowsets = {"all": lambda x: x, "none": lambda x: x >> pdt.filter(pdt.lit(1) == 2) if False else x >> pdt.slice_head(0), "one": lambda x: x >> pdt.slice_head(1)}
+    with warnings.catch_warnings():
+        warnings.simplefilter("ignore")
+        for be in ("polars", "sqlite"):
+            for pname, mk in pipes.items():
+                for rname, rs in rowsets.items():
+                    t, u = (pdt.Table(df, name="t"), pdt.Table(uf, name="u")) if be == "polars" else (pdt.Table("t", pdt.SqlAlchemy(eng)), pdt.Table("u", pdt.SqlAlchemy(eng)))
+                    n += 1
+                    try:
+                        x = mk(t, u)
+                        if not (pname == "grouped" and rname == "all"):
+                            x = rs(x >> pdt.ungroup())  # (slice_head is not defined on grouped tables)
+                        names = x >> pdt.columns()
+                        text = str(x)
+                    except (pdt.errors.SubqueryError, pdt.errors.NotSupportedError):
+                        continue
+                    except Exception as e:  # noqa: BLE001
+                        bad.append(f"[{be}] {pname} ({rname} rows): {type(e).__name__}: {str(e)[:100]}")
+                        continue
+                    lines = text.splitlines()
+                    top = next((i for i, ln in enumerate(lines) if ln.startswith("┌")), None)
+                    shape = next((re.match(r"shape: \((\d+), (\d+)\)", ln) for ln in lines if ln.startswith("shape:")), None)
+                    if be == "sqlite" and top is None and "Query:" in text:
+                        # a SQL table prints its query: the outermost select list carries the names
+                        sel = text.split("Query:", 1)[1].strip().split("\nFROM", 1)[0]
+                        header = re.findall(r" AS (\"[^\"]+\"|\w+)", sel)
+                        header = [h.strip('"') for h in header]
+                        if header != names:
+                            bad.append(f"[{be}] {pname} ({rname} rows): the printed query selects {header}, columns() = {names}")
+                        continue
+                    if top is None or shape is None:
+                        bad.append(f"[{be}] {pname} ({rname} rows): the printed table has no frame: {text[:120]!r}")
+                        continue
+                    header = [c.strip() for c in lines[top + 1].strip("│").split("┆")]
+                    if header != names or int(shape.group(2)) != len(names):
+                        bad.append(f"[{be}] {pname} ({rname} rows): printed header {header} (shape {shape.group(0)}), columns() = {names}")
+    return _enum_outcome("the printed table shows the columns columns() reports (names, order, count), also for empty and one-row results", n, bad)
+
+
 def obligations(tier):
     fi = H.fn_info
     max_w = 3 if tier == "quick" else 3
@@ -463,6 +568,10 @@ def obligations(tier):
     for si in range(3):
         obs.append(Obligation(f"C11/M8/hidden_refs/stasher{si}", "M8", "columns() / iteration agree with the exported frame on Polars and SQLite when hidden columns are referenced through an earlier table object, also across alias(keep_col_refs=True) and subqueries (native)",
                               c01.make_h("mixed", si), functions=[H.fn_info(H.sql_backend.SqlImpl.compile_ast), H.fn_info(TS.Cache.update)], bounded="one column-hiding step >> every step of the C01 alphabet >> with / without alias(keep_col_refs=True) >> 3 uses of the hidden column"))
+    obs.append(Obligation("C11/M11/special_names", "M11", "column names that are special strings (quotes, keywords, metacharacters, expression look-alikes): the exported frame has the reported columns (native)", m11_run,
+                          functions=[H.fn_info(H.polars_backend.compile_ast), H.fn_info(H.sql_backend.SqlImpl.compile_ast)], bounded="23 names x 6 pipelines x 2 backends", carveouts={"regex_names": "the names `*` and ^...$ (read as a wildcard / regular expression by polars)"}))
+    obs.append(Obligation("C11/M10/printing", "M10", "str(table) shows the columns columns() reports, also for empty and one-row results (native)", m10_run, functions=[H.fn_info(pdt._internal.pipe.table.Table.__str__), H.fn_info(pdt._internal.pipe.table.get_head_tail)],
+                          bounded="10 pipelines (one grouped) x 3 result sizes x 2 backends"))
     obs.append(Obligation("C11/M7/caller_containers", "M7", "metadata and frame stay in agreement when the caller changes a dict / list it passed to a verb afterwards (native)", c10.f3_run,
                           functions=[H.fn_info(verbs_mod.rename), H.fn_info(verbs_mod.join)], bounded="11 call shapes x 2 backends (native execution)"))
     return obs
